@@ -73,6 +73,12 @@ def signRootMdDictViaGpgV (G : GpgBackend) (sslib : Bool) (env fpr : PyVal) : Re
   | .j e, .j f => signRootMdDictViaGpg G sslib e f
   | _, _ => .error .arg
 
+/-- the file-level function with a fingerprint argument of any kind: the file is read first (255-267), then the dict-level function runs -/
+def signRootMdFileViaGpgV (G : GpgBackend) (sslib : Bool) (file : Option Bytes) (fpr : PyVal) : Res Bytes := do
+  let md ← loadFile file
+  let env' ← signRootMdDictViaGpgV G sslib (.j md) fpr
+  pure (ser env')
+
 def signViaGpgV (G : GpgBackend) (sslib : Bool) (data fpr : PyVal) (includeFingerprint : Bool) : Res J := do
   checkSslib sslib
   match fpr with
